@@ -48,12 +48,27 @@ def scope_run(jobs, timeout=1500, nproc=12):
             p = subprocess.run([binp, 'scope-run'], input=inp, stdout=subprocess.PIPE, stderr=subprocess.PIPE, text=True, timeout=timeout)
         except subprocess.TimeoutExpired:
             return []
-        return [json.loads(l) for l in p.stdout.splitlines() if l.startswith('{')]
+        out = []
+        for l in p.stdout.splitlines():
+            if l.startswith('{'):
+                try:
+                    out.append(json.loads(l))
+                except ValueError:          # a line cut short: the process was killed while writing (memory pressure)
+                    pass
+        return out
     res = {}
     with concurrent.futures.ThreadPoolExecutor(max_workers=nproc) as ex:
         for part in ex.map(one, chunks):
             for r in part:
                 res[r['id']] = r
+    # jobs without an answer (a worker process killed or timed out under load): once more, in small chunks, a few at a time
+    missing = [j for j in jobs if j['id'] not in res]
+    if missing:
+        small = [missing[i:i + 8] for i in range(0, len(missing), 8)]
+        with concurrent.futures.ThreadPoolExecutor(max_workers=4) as ex:
+            for part in ex.map(one, small):
+                for r in part:
+                    res[r['id']] = r
     return [res.get(j['id']) for j in jobs]
 
 
